@@ -94,7 +94,12 @@ def lattice_exact(mon, rng):
         mon.violation("is_inside:batched-wrong", "batched is_inside differs from exact", {"W": Wl})
     # the same batch in other memory layouts (Fortran order, transposed construction, non-contiguous view)
     D = Af - Bf
-    for name, arr in (("fortran", np.asfortranarray(D)), ("transposed", np.vstack([D[:, k] for k in range(m)]).T), ("exotic", gen.exotic(D, rng))):
+    variants = [("fortran", np.asfortranarray(D)), ("transposed", np.vstack([D[:, k] for k in range(m)]).T), ("exotic", gen.exotic(D, rng)),
+                ("float32", D.astype(np.float32))]  # multiples of 1/8 below 16: exactly representable in float32 too
+    if den == 1:
+        variants += [("int64", (A - B).astype(np.int64)), ("int32", (A - B).astype(np.int32))]
+        mon.count("integer_dtype_batches")
+    for name, arr in variants:
         insl = np.asarray(order.ordering_cone.is_inside(arr))
         mon.count("layout_batches")
         if insl.shape != exp.shape or (insl != exp).any():
@@ -152,7 +157,7 @@ def laws(mon, rng):
 
 def float_exact(mon, rng):
     m = int(rng.choice([2, 3, 4, 5]))
-    label, order = gen.random_order(rng, m)
+    label, order = gen.random_order(rng, m, rowscale_p=0.15)
     W = order.ordering_cone.W
     WF = [[Fraction(float(x)) for x in row] for row in W]
     scale = gen.rand_scale(rng)
@@ -291,7 +296,7 @@ def shard(mon, tier, rng, shard_no, nshards):
     componentwise_geometry(mon, rng)
     cone3d_geometry(mon, rng)
     # one large batched call (thousands of rows, not a round number)
-    label, order = gen.random_order(rng, int(rng.choice([2, 3])))
+    label, order = gen.random_order(rng, int(rng.choice([2, 3])), rowscale_p=0.15)
     Wb = order.ordering_cone.W
     Xb = rng.normal(size=(int(rng.integers(4500, 9000)), Wb.shape[1]))
     insb = np.asarray(order.ordering_cone.is_inside(Xb))
